@@ -6,6 +6,7 @@ PROPS = "RotoV.Props.C07"
 MODULES = [
     "RotoV.Lemmas.TcRules", "RotoV.Lemmas.UnifyTc", "RotoV.Lemmas.Typing", "RotoV.Lemmas.TypingAux", "RotoV.Lemmas.TypingMono", "RotoV.Lemmas.TypingProg",
     "RotoV.Model.Typing", "RotoV.Model.TcRules", "RotoV.Model.UnifyTc",
+    "RotoV.Model.TcInfer", "RotoV.Model.TcInferPinned", "RotoV.Lemmas.TcInferUnify", "RotoV.Lemmas.TcInferSound",
 ]
 
 
@@ -18,7 +19,7 @@ def search(ctx):
 
 
 def run(ctx):
-    ctx.extract(["c07facts"])
+    ctx.extract(["c07facts", "c07arms"])
     ctx.prove(PROPS, extra_modules=MODULES)
     if ctx.build_harness("c07"):
         ctx.harness("c07", ["run", ctx.seed, ctx.tier], timeout=3000)
